@@ -554,6 +554,20 @@ func (ri *reflectInspector) recursivelyRecordUsedForReflectImpl(t types.Type, vi
 			ri.recursivelyRecordUsedForReflectImpl(field.Type(), visited)
 		}
 
+	case *types.Map:
+		// Note that maps also have an Elem method, but reflection can reach the key too.
+		ri.recursivelyRecordUsedForReflectImpl(t.Key(), visited)
+		ri.recursivelyRecordUsedForReflectImpl(t.Elem(), visited)
+
+	case *types.Signature:
+		// Reflection can reach the parameter and result types of a func type.
+		for param := range t.Params().Variables() {
+			ri.recursivelyRecordUsedForReflectImpl(param.Type(), visited)
+		}
+		for result := range t.Results().Variables() {
+			ri.recursivelyRecordUsedForReflectImpl(result.Type(), visited)
+		}
+
 	case interface{ Elem() types.Type }:
 		// Get past pointers, slices, etc.
 		ri.recursivelyRecordUsedForReflectImpl(t.Elem(), visited)
